@@ -8,7 +8,13 @@ decimal approximation.  Sources:
   is called there (positional, default tolerances read from math.isclose's signature);
 * pyatv.protocols.raop: INITIAL_VOLUME, step and clamp bound of RaopAudio.volume_up/down;
 * pyatv.protocols.mrp: step, clamp bound and early-return level of MrpAudio.volume_up/down;
-* pyatv.core.facade: the two bounds of the FacadeAudio.volume / set_volume guards.
+* pyatv.core.facade: the two bounds of the FacadeAudio.volume / set_volume guards: the range
+  test is read from the source — inline or in a helper it calls (module-level function or
+  method of the class, one level), in any equivalent spelling (chained comparison, negated,
+  two comparisons joined by and / or, bounds as literals or named constants) — and the REAL
+  guard is always probed too (NaN, +-inf, -0.0, bisection over the doubles for the smallest
+  and largest accepted level, neighbours).  Recognised shape must agree with the probe; an
+  unrecognised shape falls back to the probed bounds (the Gen file says which).
 
 A shape the extractor does not recognise raises (the check then reports the extraction
 as failed and no obligation counts as discharged).
@@ -17,6 +23,7 @@ import ast
 import inspect
 import math
 import re
+import struct
 import textwrap
 from fractions import Fraction
 
@@ -75,17 +82,213 @@ def _early_return_level(fn):
     raise ValueError(f"{fn.name}: no `== LEVEL` early return found")
 
 
-def _guard_bounds(fn):
-    """`LO <= x <= HI` (chained, both non-strict) -> (LO, HI)"""
-    found = []
-    for node in ast.walk(fn):
+def _const(node, scope):
+    """numeric literal, or a name / attribute that resolves to a number in `scope`"""
+    try:
+        return _num(node)
+    except ValueError:
+        pass
+    if isinstance(node, (ast.Name, ast.Attribute)):
+        try:
+            val = eval(compile(ast.Expression(node), "<guard>", "eval"), dict(scope))  # noqa: S307 - a name lookup
+        except Exception as exc:
+            raise ValueError("not a constant: " + ast.unparse(node)) from exc
+        if isinstance(val, (int, float)) and not isinstance(val, bool):
+            return val
+    raise ValueError("not a constant: " + ast.unparse(node))
+
+
+def _range_tests(tree, scope):
+    """Every range test on one variable found in `tree`, in any of the equivalent spellings
+    -> [(lo, lo_inclusive, hi, hi_inclusive)].  A test for being OUTSIDE (`x < LO or x > HI`)
+    is turned into its complement; an enclosing `not` does not change the bounds."""
+    out = []
+
+    def side(cmp):
+        """single comparison between a variable and a constant -> (kind, bound, inclusive)
+        with kind 'lo' (var >= / > bound) or 'hi' (var <= / < bound)"""
+        if len(cmp.ops) != 1:
+            return None
+        op, left, right = cmp.ops[0], cmp.left, cmp.comparators[0]
+        for var_left in (True, False):
+            try:
+                bound = _const(right if var_left else left, scope)
+            except ValueError:
+                continue
+            if isinstance(op, (ast.Gt, ast.GtE)):
+                return ("lo" if var_left else "hi", bound, isinstance(op, ast.GtE))
+            if isinstance(op, (ast.Lt, ast.LtE)):
+                return ("hi" if var_left else "lo", bound, isinstance(op, ast.LtE))
+        return None
+
+    for node in ast.walk(tree):
         if isinstance(node, ast.Compare) and len(node.ops) == 2:
-            if not all(isinstance(o, ast.LtE) for o in node.ops):
-                raise ValueError(f"{fn.name}: guard is not `LO <= x <= HI`: " + ast.dump(node))
-            found.append((_num(node.left), _num(node.comparators[1])))
-    if len(found) != 1:
-        raise ValueError(f"{fn.name}: expected one chained range comparison, found {found}")
-    return found[0]
+            ops = node.ops
+            try:
+                first, last = _const(node.left, scope), _const(node.comparators[1], scope)
+            except ValueError:
+                continue
+            if all(isinstance(o, (ast.Lt, ast.LtE)) for o in ops):        # LO <= x <= HI
+                out.append((first, isinstance(ops[0], ast.LtE), last, isinstance(ops[1], ast.LtE)))
+            elif all(isinstance(o, (ast.Gt, ast.GtE)) for o in ops):      # HI >= x >= LO
+                out.append((last, isinstance(ops[1], ast.GtE), first, isinstance(ops[0], ast.GtE)))
+        elif isinstance(node, ast.BoolOp) and len(node.values) == 2 and all(isinstance(v, ast.Compare) for v in node.values):
+            sides = [side(v) for v in node.values]
+            if None in sides or {sd[0] for sd in sides} != {"lo", "hi"}:
+                continue
+            lo = next(sd for sd in sides if sd[0] == "lo")
+            hi = next(sd for sd in sides if sd[0] == "hi")
+            if isinstance(node.op, ast.And):        # x >= LO and x <= HI
+                out.append((lo[1], lo[2], hi[1], hi[2]))
+            else:                                   # x < LO or x > HI  (outside test): 'hi'-kind part gives LO
+                out.append((hi[1], not hi[2], lo[1], not lo[2]))
+    return out
+
+
+def _callees(fn_obj, owner):
+    """functions called from fn_obj that are module-level functions of its module or methods
+    of `owner` (one level: their bodies are analysed together with fn_obj's)"""
+    fn = inspect.unwrap(fn_obj.fget if isinstance(fn_obj, property) else fn_obj)
+    scope = fn.__globals__
+    found = []
+    for node in ast.walk(_fn_ast(fn_obj)):
+        if not isinstance(node, ast.Call):
+            continue
+        target = None
+        if isinstance(node.func, ast.Name):
+            target = scope.get(node.func.id)
+        elif isinstance(node.func, ast.Attribute) and isinstance(node.func.value, ast.Name) and node.func.value.id in ("self", "cls"):
+            target = inspect.getattr_static(owner, node.func.attr, None)
+            if isinstance(target, (staticmethod, classmethod)):
+                target = target.__func__
+        if target is None or isinstance(target, type):
+            continue
+        target = inspect.unwrap(target.fget if isinstance(target, property) else target)
+        if inspect.isfunction(target) and (target.__module__ or "").startswith("pyatv") and target not in found:
+            found.append(target)
+    return found
+
+
+def _guard_shape(fn_obj, owner):
+    """AST view of the range guard of fn_obj (following calls one level) -> (lo, hi) when there
+    is exactly one range test and it is inclusive on both sides, else None (shape unknown)."""
+    fn = inspect.unwrap(fn_obj.fget if isinstance(fn_obj, property) else fn_obj)
+    tests = _range_tests(_fn_ast(fn_obj), fn.__globals__)
+    for callee in _callees(fn_obj, owner):
+        try:
+            tests += _range_tests(_fn_ast(callee), callee.__globals__)
+        except (OSError, TypeError, SyntaxError):
+            continue
+    tests = sorted(set(tests))
+    if len(tests) == 1 and tests[0][1] and tests[0][3]:
+        return tests[0][0], tests[0][2]
+    return None
+
+
+def _f2i(x):
+    """doubles in numeric order as integers (-0.0 and 0.0 coincide)"""
+    bits = struct.unpack("<q", struct.pack("<d", x))[0]
+    return bits if bits >= 0 else -(bits & 0x7FFFFFFFFFFFFFFF)
+
+
+def _i2f(i):
+    return struct.unpack("<d", struct.pack("<q", i if i >= 0 else (-i) | -0x8000000000000000))[0]
+
+
+def _probe_guard(accepts, hints, what):
+    """Behavioural view of a range guard: `accepts(x)` runs the REAL guard.  Returns the smallest
+    and the largest accepted double (found by bisection over the doubles), after checking that
+    NaN and the infinities are refused and that acceptance looks like one interval."""
+    for bad in (float("nan"), float("inf"), float("-inf")):
+        if accepts(bad):
+            raise ValueError(f"{what}: the guard accepts {bad!r}")
+    inside = next((x for x in list(hints) + [50.0, 0.0, 100.0, 1.0] if accepts(x)), None)
+    if inside is None:
+        raise ValueError(f"{what}: no accepted level found")
+    biggest = 1.7976931348623157e308
+
+    def edge(outside):
+        if accepts(outside):
+            return outside
+        bad, good = _f2i(outside), _f2i(inside)
+        while abs(good - bad) > 1:
+            mid = (good + bad) // 2
+            if accepts(_i2f(mid)):
+                good = mid
+            else:
+                bad = mid
+        return _i2f(good)
+
+    lo, hi = edge(-biggest), edge(biggest)
+    for x in (lo, hi, -0.0 if lo <= 0.0 <= hi else lo, (lo + hi) / 2, lo + (hi - lo) / 3, math.nextafter(lo, hi), math.nextafter(hi, lo)):
+        if not accepts(x):
+            raise ValueError(f"{what}: {x!r} inside [{lo!r}, {hi!r}] is refused")
+    for x in (math.nextafter(lo, -math.inf), math.nextafter(hi, math.inf), lo - 1.0, hi + 1.0):
+        if accepts(x):
+            raise ValueError(f"{what}: {x!r} outside [{lo!r}, {hi!r}] is accepted")
+    return lo + 0.0, hi + 0.0
+
+
+def _facade_guards(facade):
+    """(read_lo, read_hi, set_lo, set_hi, how): bounds of FacadeAudio.volume / set_volume.
+    The shape is read from the source (guard inline or in a helper, any equivalent spelling);
+    the REAL guard is always probed as well.  Shape recognised: it must agree with the probe.
+    Shape not recognised: the probed bounds are used and the Gen file says so."""
+    import asyncio
+
+    from pyatv import exceptions
+    from pyatv.const import Protocol
+    from pyatv.core import CoreStateDispatcher
+
+    class Stub:
+        level = 0.0
+
+        @property
+        def volume(self):
+            return self.level
+
+        async def set_volume(self, level):
+            pass
+
+    loop = asyncio.new_event_loop()
+    try:
+        asyncio.set_event_loop(loop)
+        stub = Stub()
+        audio = facade.FacadeAudio(CoreStateDispatcher())
+        audio.register(stub, Protocol.MRP)
+
+        def read_ok(x):
+            stub.level = x
+            try:
+                audio.volume
+                return True
+            except exceptions.ProtocolError:
+                return False
+
+        def set_ok(x):
+            try:
+                loop.run_until_complete(audio.set_volume(x))
+                return True
+            except exceptions.ProtocolError:
+                return False
+
+        out, how = [], []
+        for name, fn_obj, accepts in (("FacadeAudio.volume", facade.FacadeAudio.volume, read_ok),
+                                      ("FacadeAudio.set_volume", facade.FacadeAudio.set_volume, set_ok)):
+            try:
+                shape = _guard_shape(fn_obj, facade.FacadeAudio)
+            except Exception:
+                shape = None
+            lo, hi = _probe_guard(accepts, list(shape or ()), name)
+            if shape is not None and (float(shape[0]), float(shape[1])) != (lo, hi):
+                raise ValueError(f"{name}: source says {shape[0]!r} <= x <= {shape[1]!r} but the guard accepts exactly [{lo!r}, {hi!r}]")
+            out += [lo, hi]
+            how.append(f"{name}: " + ("range test read from the source, confirmed by probing the real guard"
+                                      if shape is not None else "shape not recognised, bounds PROBED on the real guard"))
+        return out[0], out[1], out[2], out[3], how
+    finally:
+        asyncio.set_event_loop(None)
+        loop.close()
 
 
 def _isclose_defaults():
@@ -124,8 +327,7 @@ def generate():
     mrp_up_fn, mrp_down_fn = _fn_ast(mrp.MrpAudio.volume_up), _fn_ast(mrp.MrpAudio.volume_down)
     mrp_up = _step_and_bound(mrp_up_fn, "min", ast.Add)
     mrp_down = _step_and_bound(mrp_down_fn, "max", ast.Sub)
-    read_lo, read_hi = _guard_bounds(_fn_ast(facade.FacadeAudio.volume))
-    set_lo, set_hi = _guard_bounds(_fn_ast(facade.FacadeAudio.set_volume))
+    read_lo, read_hi, set_lo, set_hi, guard_how = _facade_guards(facade)
 
     defs = [
         ("dbfsMin", utils.DBFS_MIN, "pyatv.protocols.airplay.utils.DBFS_MIN"),
@@ -147,9 +349,9 @@ def generate():
         ("mrpDownStep", mrp_down[0], "MrpAudio.volume_down (absolute control): max(volume - STEP, BOUND)"),
         ("mrpDownBound", mrp_down[1], ""),
         ("mrpDownStop", _early_return_level(mrp_down_fn), "MrpAudio.volume_down returns at once at this level"),
-        ("facadeReadLo", read_lo, "FacadeAudio.volume guard: LO <= volume <= HI"),
+        ("facadeReadLo", read_lo, "FacadeAudio.volume guard: LO <= volume <= HI (NaN, +-inf refused). " + guard_how[0]),
         ("facadeReadHi", read_hi, ""),
-        ("facadeSetLo", set_lo, "FacadeAudio.set_volume guard: LO <= level <= HI"),
+        ("facadeSetLo", set_lo, "FacadeAudio.set_volume guard: LO <= level <= HI (NaN, +-inf refused). " + guard_how[1]),
         ("facadeSetHi", set_hi, ""),
     ]
     out = ["namespace PyatvModel.Gen.C20\n"]
